@@ -990,6 +990,8 @@ def plan(prop, tier, seed, known):
                                   extra=["-loss", "1", "-cont", "2", "-nested", "1", "-stride", "3" if q else "1"]))
         jobs.append(probe_job(prop, av))
         jobs += commitwin_jobs(q, ["C01"])
+        # the first start on an empty disk with crashes inside the format (the crash engine enumerates those points on the real code)
+        jobs += design_jobs("Format", ["Format"], [], [("Format_rootfirst", "Usable"), ("Format_dotsonce", "Usable")], q)
         for i in range(2 if q else 16):   # crash points inside concurrent histories (group commits of several clients' transactions)
             jobs.append(conccrash_job("conccrash%d" % i, seed * 100 + 95 + i, 2 + i % 3, 3 if q else 6, 6 if q else 8, av, 60 if q else 150, 2 if q else 4))
         jobs.append({"name": "Wal_MC", "kind": "mc", "module": "Wal.tla", "cfg": "Wal_MC.cfg"})
